@@ -6,6 +6,8 @@
 package verifhooks
 
 import (
+	"github.com/fsnotify/fsnotify"
+
 	"github.com/taskctl/taskctl/internal/config"
 	"github.com/taskctl/taskctl/internal/watch"
 	"github.com/taskctl/taskctl/pkg/task"
@@ -30,3 +32,6 @@ func NewConfigLoader(dst *Config) Loader { return config.NewConfigLoader(dst) }
 func NewWatcher(name string, events, include, exclude []string, t *task.Task) (*Watcher, error) {
 	return watch.NewWatcher(name, events, include, exclude, t)
 }
+
+// EventName maps an fsnotify operation to the watcher's event name.
+func EventName(op fsnotify.Op) string { return watch.VerifEventName(op) }
